@@ -2,9 +2,11 @@ import io
 from . import ref
 
 
-def replay_history(writer, blocked, lengths, fins):
+def replay_history(writer, blocked, lengths, fins, readable=True):
     from cardutil import mciipm
     f = io.BytesIO()
+    if not readable:
+        f.readable = lambda: False
     if writer == 'vbs':
         w = mciipm.VbsWriter(f, blocked=blocked)
         items = [ref.content(n, i) for i, n in enumerate(lengths)]
@@ -18,6 +20,9 @@ def replay_history(writer, blocked, lengths, fins):
     for k, fin in enumerate(fins):
         if fin == 'close':
             w.close()
+        elif fin == 'with':
+            with w:
+                pass
         else:
             w.__exit__(None, None, None)
         if k == 0:
@@ -26,7 +31,7 @@ def replay_history(writer, blocked, lengths, fins):
     if blocked:
         if len(final) % 1014 or any(final[j + 1012:j + 1014] != b'@@' for j in range(0, len(final), 1014)):
             return True, 'finalised blocked file of %d bytes is not valid 1014 form' % len(final), 'C11/blocked-form'
-    f.seek(0)
+    f = io.BytesIO(final)
     try:
         got = list((mciipm.VbsReader if writer == 'vbs' else mciipm.IpmReader)(f, blocked=blocked))
     except mciipm.MciIpmDataError as e:
